@@ -10,6 +10,9 @@ mod emf;
 mod json_string;
 mod rate_limit;
 
+#[cfg(metrique_verif)]
+#[doc(hidden)]
+pub use emf::verif_rate_to_n_alpha;
 pub use emf::{
     AllowSplitEntries, Emf, EmfBuilder, EntryDimensions, HighStorageResolution,
     HighStorageResolutionCtor, MetricDefinition, MetricDirective, NoMetric, NoMetricCtor,
